@@ -50,6 +50,34 @@ def _ds(x):
     return x.to_dataset(name="v")
 
 
+# companion variables of a mixed-location dataset (UxOps!CompShape); values are tracers: element index along the
+# grid dim (+ 1000 * position in the leading dims)
+COMP_SHAPE = {"cf": ("n_face",), "cn": ("n_node",), "ce": ("n_edge",), "c0": ("aux",), "c2": ("aux", "aux2", "n_node")}
+AUX_LEN = {"aux": 4, "aux2": 2}
+MIX_SELECT = {"ds_isel_grid_kw", "ds_isel_grid_step", "ds_isel_grid_slice", "ds_isel_grid_array", "ds_isel_grid_rev",
+              "ds_head_grid", "ds_tail_grid", "ds_thin_grid"}
+MIX_OPS = MIX_SELECT | {"ds_get_dual", "ds_remap_nn_face", "ds_copy_deep", "ds_mean_grid"}
+
+
+def companion_values(c, cnt):
+    shape = [cnt[k] if k in GRID_KINDS else AUX_LEN[k] for k in COMP_SHAPE[c]]
+    last = np.arange(shape[-1], dtype=float)
+    if len(shape) == 1:
+        return last
+    lead = np.arange(int(np.prod(shape[:-1])), dtype=float).reshape(shape[:-1])
+    return lead[..., None] * 1000.0 + last
+
+
+def mixed_ds(x, mix):
+    ds = _ds(x)
+    if mix and hasattr(x, "uxgrid"):
+        ux = hux.import_ux()
+        cnt = counts(x.uxgrid)
+        for c in mix:
+            ds[c] = ux.UxDataArray(companion_values(c, cnt), dims=COMP_SHAPE[c], uxgrid=x.uxgrid)
+    return ds
+
+
 def build_grid(name):
     ux = hux.import_ux()
     e = catalog.entries(name=name, rot=0, cut=0)[0]
@@ -102,13 +130,13 @@ def _at(x, d, item):
     return tuple([slice(None)] * pos + [item])
 
 
-def apply(op, d, x, dest=None):
+def apply(op, d, x, dest=None, mix=(), full=False):
     """Apply the public operation `op` (dimension argument d) to x (UxDataArray or DataArray)."""
     import xarray as xr
 
     g = grid_dim(x)
     if op.startswith("ds_"):
-        return apply_ds(op, d, x, g, dest)
+        return apply_ds(op, d, x, g, dest, mix=mix)
     # ---- elementwise
     if op == "add_scalar": return x + 1
     if op == "radd_scalar": return 1 + x
@@ -246,10 +274,68 @@ def apply(op, d, x, dest=None):
     raise KeyError(op)
 
 
-def apply_ds(op, d, x, g, dest):
+def apply_ds_full(op, d, x, dest=None, mix=()):
+    """Dataset-level operation that touches a grid dimension, on the dataset {v: x} + companions(mix): the whole result.
+    For selections d names the grid dimension selected along ("-": the array's own)."""
+    g = grid_dim(x)
+    ds = mixed_ds(x, mix)
+    sk = g if d == "-" else d
+    n = ds.sizes[sk] if sk is not None else 0
+    two = [0, 1] if n >= 3 else [0]
+    if op == "ds_isel_grid_kw": return ds.isel(**{sk: two})
+    if op == "ds_isel_grid_step": return ds.isel(**{sk: STEP})
+    if op == "ds_isel_grid_slice": return ds.isel(**{sk: slice(0, 2)})
+    if op == "ds_isel_grid_array": return ds.isel({sk: np.array(two)})
+    if op == "ds_isel_grid_rev": return ds.isel(indexers={sk: REV})
+    if op == "ds_head_grid": return ds.head(**{sk: 2})
+    if op == "ds_tail_grid": return ds.tail(**{sk: 2})
+    if op == "ds_thin_grid": return ds.thin(**{sk: 3})
+    if op == "ds_get_dual": return ds.get_dual()
+    if op == "ds_remap_nn_face": return ds.remap.nearest_neighbor(dest, remap_to="face centers")
+    if op == "ds_copy_deep": return ds.copy(deep=True)
+    if op == "ds_mean_grid": return ds.mean(g)
+    raise KeyError(op)
+
+
+def observe_companions(op, out, pre, mix, reg, project_):
+    """Project every companion variable of the result dataset `out` of a mixed-dataset operation on `pre`."""
+    comps = []
+    cnt0 = counts(pre.uxgrid)
+    sel_cache = {}
+    for c in mix:
+        if c not in out.data_vars:
+            continue
+        v = out[c]
+        rec = {"c": c, "src": [], "sel": [], "val": "na"}
+        rec.update({k: w for k, w in project_(v, reg).items() if k in ("cls", "grid", "dims")})
+        kinds = [k for k in v.dims if k in GRID_KINDS]
+        if op in MIX_SELECT or op == "ds_copy_deep":
+            orig = companion_values(c, cnt0)
+            try:
+                if kinds and v.dims[-1] == kinds[0] and rec["cls"] == "Ux" and rec["grid"] != 0:
+                    k = kinds[0]
+                    vals = np.asarray(v.values, dtype=float)
+                    row = vals.reshape(-1, vals.shape[-1])[0]
+                    rec["src"] = [int(t) % 1000 if t == t else -1 for t in row.tolist()]
+                    if k not in sel_cache:
+                        pk = {key: i for i, key in enumerate(element_keys(pre.uxgrid, k))}
+                        sel_cache[k] = [pk.get(key, -1) for key in element_keys(v.uxgrid, k)]
+                    rec["sel"] = sel_cache[k]
+                    rec["val"] = "eq" if _arr_eq(vals, np.take(orig, rec["src"], axis=-1)) else "diff"
+                elif not kinds:
+                    rec["val"] = "eq" if _arr_eq(np.asarray(v.values, dtype=float), orig) else "diff"
+            except Exception:  # noqa
+                rec["val"] = "diff"
+        comps.append(rec)
+    return comps
+
+
+def apply_ds(op, d, x, g, dest, mix=()):
     """The operation applied to a dataset holding x as variable "v"; the variable taken out again."""
     import xarray as xr
 
+    if op in MIX_OPS:
+        return apply_ds_full(op, d, x, dest=dest, mix=mix)["v"]
     ds = _ds(x)
     if op == "ds_getitem": return ds["v"]
     if op == "ds_attr": return ds.v
@@ -281,13 +367,6 @@ def apply_ds(op, d, x, g, dest):
     if op == "ds_head": return ds.head(**{d: 2})["v"]
     if op == "ds_expand_dims_run": return ds.expand_dims("run")["v"]
     if op == "ds_transpose_rev": return ds.transpose(*reversed(x.dims))["v"]
-    if op == "ds_mean_grid": return ds.mean(g)["v"]
-    if op == "ds_copy_deep": return ds.copy(deep=True)["v"]
-    if op == "ds_get_dual": return ds.get_dual()["v"]
-    if op == "ds_remap_nn_face": return ds.remap.nearest_neighbor(dest, remap_to="face centers")["v"]
-    if op == "ds_isel_grid_kw": return ds.isel(**{g: [0, 1] if x.sizes[g] >= 3 else [0]})["v"]
-    if op == "ds_isel_grid_step": return ds.isel(**{g: STEP})["v"]
-    if op == "ds_head_grid": return ds.head(**{g: 2})["v"]
     raise KeyError(op)
 
 
@@ -403,7 +482,7 @@ def element_keys(g, kind):
     return [frozenset(nk[int(j)] for j in row if j != FILL and j >= 0) for row in np.asarray(conn)]
 
 
-def selection_maps(op, pre, r, dest=None):
+def selection_maps(op, pre, r, dest=None, d="-", mix=()):
     """For a selection on the grid dimension: (src, sel).
     src[i]: index in `pre` the data at position i came from - a tracer array (values = element index) on pre's grid is
             put through the same call;
@@ -413,7 +492,7 @@ def selection_maps(op, pre, r, dest=None):
     n = pre.sizes[k]
     try:
         t = ux.UxDataArray(np.arange(n, dtype=float), dims=[k], uxgrid=pre.uxgrid, name="t")
-        tr = apply(op, "-", t, dest=dest)
+        tr = apply(op, d, t, dest=dest, mix=mix)
         src = [int(v) if v == v else -1 for v in np.asarray(tr.values, dtype=float).ravel().tolist()]
     except Exception:  # noqa
         src = [-2]
